@@ -23,6 +23,9 @@ pub enum Start {
     Empty,
     Parsed(String),
     Built(Vec<Vec<(String, String)>>),
+    /// a parsed document after Deb822::wrap_and_sort(None, None): the live object that call returns (its tree has another
+    /// shape than a parsed one: comments hang directly under the root)
+    Wrapped(String),
 }
 
 pub struct Case {
@@ -44,6 +47,15 @@ pub fn run(case: &Case) -> CheckResult {
             Err(e) => return fail("start-parses", format!("well-formed start document rejected: {:?}", e.to_string())),
         },
         Start::Built(paras) => (paras.iter().enumerate().map(|(i, p)| c04::build_para(p, i as u8)).collect(), paras.clone()),
+        Start::Wrapped(t) => match Deb822::from_str(t) {
+            Ok(d) => {
+                let w = d.wrap_and_sort(None, None);
+                let m: Model = w.paragraphs().map(|p| p.items().collect()).collect();
+                // (that the reformatting keeps the content is C07's business; here the live result is the start state)
+                (w, m)
+            }
+            Err(e) => return fail("start-parses", format!("well-formed start document rejected: {:?}", e.to_string())),
+        },
     };
     let mut handles: Vec<Paragraph> = d.paragraphs().collect();
     ensure_eq!(d.paragraphs().map(|p| p.items().collect::<Vec<_>>()).collect::<Vec<_>>(), model, "start-model", "start state");
@@ -200,7 +212,7 @@ impl PropImpl for C05 {
          document with >= 2 paragraphs or with leading/trailing trivia.".into()
     }
     fn expected_labels(&self) -> Vec<&'static str> {
-        vec!["op:add", "op:insert-in-range", "op:insert-at-end", "op:insert-beyond-end", "op:remove-in-range", "op:remove-beyond-end", "op:set", "add/insert-while-a-paragraph-is-still-empty", "add/insert-while-every-paragraph-is-empty", "set-fills-an-empty-paragraph-that-is-not-the-last", "start:empty", "start:built", "start:parsed", "start:leading-trivia", "start:trailing-trivia", "start:no-final-newline"]
+        vec!["op:add", "op:insert-in-range", "op:insert-at-end", "op:insert-beyond-end", "op:remove-in-range", "op:remove-beyond-end", "op:set", "add/insert-while-a-paragraph-is-still-empty", "add/insert-while-every-paragraph-is-empty", "set-fills-an-empty-paragraph-that-is-not-the-last", "start:empty", "start:built", "start:parsed", "start:result-of-wrap-and-sort", "start:leading-trivia", "start:trailing-trivia", "start:no-final-newline"]
     }
     fn budget(&self, tier: Tier) -> Budget {
         Budget { cases_per_lane: if tier == Tier::Quick { 30000 } else { 120000 }, tape_max: 800, cpu_s: 10 }
@@ -224,7 +236,7 @@ impl PropImpl for C05 {
         let mut n = match &start {
             Start::Empty => 0,
             Start::Built(p) => p.len(),
-            Start::Parsed(t) => scan(t).paras.len(),
+            Start::Parsed(t) | Start::Wrapped(t) => scan(t).paras.len(),
         };
         // positions of paragraphs left empty, to be filled after the structural operations
         let mut empty: Vec<usize> = vec![];
@@ -296,7 +308,11 @@ impl PropImpl for C05 {
                 let o = doc::DocOpts { min_paras: 0, max_paras: 3, max_fields: 3, max_lines: 3, ..Default::default() };
                 let d = doc::gen_doc(t, &o);
                 let n = d.paras.len();
-                (Start::Parsed(d.render().text), n)
+                if t.chance(1, 5) {
+                    (Start::Wrapped(d.render().text), n)
+                } else {
+                    (Start::Parsed(d.render().text), n)
+                }
             }
         };
         let mut ops = vec![];
@@ -346,8 +362,8 @@ impl PropImpl for C05 {
                 ctx.label("start:built");
                 (p.len(), false)
             }
-            Start::Parsed(t) => {
-                ctx.label("start:parsed");
+            Start::Parsed(t) | Start::Wrapped(t) => {
+                ctx.label(if matches!(case.start, Start::Wrapped(_)) { "start:result-of-wrap-and-sort" } else { "start:parsed" });
                 let sc = scan(t);
                 let lead = t.starts_with('#') || t.starts_with('\n');
                 let trail = t.ends_with("\n\n") || t.rsplit('\n').find(|l| !l.is_empty()).map(|l| l.starts_with('#')).unwrap_or(false);
